@@ -2,6 +2,7 @@ package harness
 
 import (
 	"encoding/json"
+	"fmt"
 	"testing"
 
 	tq "github.com/facebookincubator/tacquito"
@@ -335,12 +336,72 @@ func headerWithSeq(h model.Header, seq int) tq.EncoderDecoder {
 	return l
 }
 
+// argRuleBroken states the argument rules of the authorization bodies independently of the library:
+// an argument is 2..255 octets of US-ASCII (accounting arguments may also be shorter).
+func argRuleBroken(m interface{}) (bool, string) {
+	var args []model.B
+	min := 2
+	switch v := m.(type) {
+	case model.AuthorRequest:
+		args = v.Args
+	case model.AuthorReply:
+		args = v.Args
+	case model.AcctRequest:
+		args, min = v.Args, 0
+	default:
+		return false, ""
+	}
+	for i, a := range args {
+		if len(a) < min {
+			return true, fmt.Sprintf("argument %d has %d octets, fewer than %d", i, len(a), min)
+		}
+		if !isASCII(a) {
+			return true, fmt.Sprintf("argument %d is not US-ASCII", i)
+		}
+	}
+	return false, ""
+}
+
+// c02History decodes the value's arguments as part of the other two argument-carrying bodies.
+func c02History(m interface{}) {
+	var args []model.B
+	switch v := m.(type) {
+	case model.AuthorRequest:
+		args = v.Args
+	case model.AuthorReply:
+		args = v.Args
+	case model.AcctRequest:
+		args = v.Args
+	default:
+		return
+	}
+	if len(args) == 0 || len(args) > 255 {
+		return
+	}
+	for _, a := range args {
+		if len(a) > 255 {
+			return
+		}
+	}
+	catch(func() {
+		_ = tq.Unmarshal(model.AcctRequest{Flags: 2, Method: 6, Priv: 1, AType: 1, Service: 1, User: b("h"), Args: args}.Encode(), &tq.AcctRequest{})
+		_ = tq.Unmarshal(model.AuthorRequest{Method: 6, Priv: 1, AType: 1, Service: 1, User: b("h"), Args: args}.Encode(), &tq.AuthorRequest{})
+		_ = tq.Unmarshal(model.AuthorReply{Status: 1, Args: args}.Encode(), &tq.AuthorReply{})
+	})
+}
+
 func checkC02Encode(t failer, c *codec, m interface{}, label string) {
 	ev.Eval()
 	raw, _ := json.Marshal(m)
 	cc := c02Case{Dir: "encode-first", Codec: c.name, Value: raw}
 	lib := c.toLib(m)
+	// what other packets the process has handled before must not matter: the same arguments first pass
+	// through the decoders of the other argument-carrying bodies (whose rules for them differ)
+	c02History(m)
 	verr := c.validate(lib)
+	if bad, rule := argRuleBroken(m); bad && verr == nil {
+		verr = fmt.Errorf("%s (the value's own Validate said nothing)", rule)
+	}
 	okFit, why := fits(m)
 	enc, err := lib.MarshalBinary()
 	if err != nil {
